@@ -177,7 +177,7 @@ func (f *Flow) plan() string {
 	g := f.g
 	if g.r.Chance(1, 8) {
 		g.stats.Mut("dep-plan")
-		return g.pick([]string{"f", "df", "s", "ss", "ds", "sf", "fs", "dd"})
+		return g.pick([]string{"f", "df", "s", "ss", "ds", "sf", "fs", "dd", "p", "dp", "sp"})
 	}
 	return ""
 }
@@ -725,7 +725,7 @@ func (f *Flow) Receive(usePool bool) {
 	g.stats.Mut(mut)
 	plan := ""
 	if g.r.Chance(1, 8) {
-		plan = g.pick([]string{"f", "s"})
+		plan = g.pick([]string{"f", "s", "p"})
 		g.stats.Mut("rcv-mint-plan-" + plan)
 	}
 	cls := g.tx("ReceiveMessage", from, fmt.Sprintf("message=%x attestation=%x", msg, att), plan)
@@ -846,6 +846,19 @@ func (f *Flow) Replace() {
 		case 2:
 			newRcp = append(newRcp, 1)
 			mut += "+rep-recipient-long"
+		case 4:
+			if len(orig) >= 116+68 {
+				newRcp = append([]byte(nil), orig[116+36:116+68]...) // the recipient the original already names: only the caller changes
+				mut += "+rep-recipient-same"
+			}
+		case 5:
+			if len(orig) >= 116 {
+				newCaller = append([]byte(nil), orig[84:116]...) // ... or nothing changes at all
+				if len(orig) >= 116+68 {
+					newRcp = append([]byte(nil), orig[116+36:116+68]...)
+				}
+				mut += "+rep-nothing-changes"
+			}
 		}
 		g.stats.Mut("D:" + mut)
 		g.tx("ReplaceDepositForBurn", from, fmt.Sprintf("orig=%x att=%x new_caller=%x new_recipient=%x", orig, att, newCaller, newRcp), "")
